@@ -122,10 +122,10 @@ EXPRESSION_COLUMNS = {"relevant", "required", "readonly", "constraint", "calcula
 # question type keyword families (first spelling = the one XLSForm documents today)
 TYPE_KEYWORDS = [
     ["select_one", "select one", "select1"],
-    ["select_multiple", "select all that apply", "select multiple"],
+    ["select_multiple", "select all that apply"],   # "select multiple": not a documented spelling (triage: false alarm)
 ]
 TYPE_WHOLE = [
-    ["integer", "int"], ["text", "string"], ["image", "photo"],
+    ["integer", "int"], ["image", "photo"],   # text/string removed at triage: "string" is not a documented alias
     ["begin group", "begin_group"], ["end group", "end_group"],
     ["begin repeat", "begin_repeat"], ["end repeat", "end_repeat"],
 ]
@@ -1510,7 +1510,7 @@ def _tiny_forms() -> dict[str, WB]:
         wb = WB({"survey": _sheet(rows)})
         if "l1" in t:
             wb["choices"] = (list(CH[0]), [list(r) for r in CH[1]])
-        out[f"tiny_{norm_name(t)}"] = wb
+        out[f"tiny{i:02d}_{norm_name(t)}"] = wb
     return out
 
 
